@@ -1385,7 +1385,11 @@ class InstrumentationTransformer:
 
                 for pred in predecessors:
                     for succ in successors:
+                        # The dependency via the removed node holds regardless of the branch
+                        # that is taken at `pred`, even if `succ` also depends directly on one
+                        # of its branches; thus, the edge must not carry a branch value.
                         cdg.graph.add_edge(pred, succ)
+                        cdg.graph.edges[pred, succ].clear()
 
         return cdg
 
